@@ -101,6 +101,19 @@ func Float64Bits(r *Rand, special bool) uint64 {
 		case 5:
 			f = float64(r.Intn(2000)-1000) / 8
 		case 6:
+			if r.P(1, 3) {
+				// whole numbers at and next to the integer type boundaries:
+				// 2^k and its float neighbours for k = 7, 8, 15, 16, 24, 31, 32, 53, 63, 64
+				k := Pick(r, []int{7, 8, 15, 16, 23, 24, 31, 32, 52, 53, 62, 63, 64, 127})
+				f = math.Ldexp(1, k)
+				switch r.Intn(3) {
+				case 0:
+					f = math.Nextafter(f, 0)
+				case 1:
+					f = math.Nextafter(f, math.Inf(1))
+				}
+				break
+			}
 			f = float64(r.Intn(200000)-100000) / 1000
 		case 7:
 			f = Pick(r, []float64{5e-324, 2.2250738585072011e-308, 2.2250738585072014e-308, 1e23, 8.41e21, 1e21, 1e20, 1e-7, 1e-6, 123456789012345680, 0.1, 0.3, 1.0 / 3, 9007199254740993, 1e100, 100000000})
@@ -150,6 +163,18 @@ func float32Bits(r *Rand, special bool) uint32 {
 		case 4:
 			f = float32(r.Intn(1<<24) - 1<<23)
 		case 5:
+			if r.P(1, 3) {
+				// whole numbers at and next to the integer type boundaries
+				k := Pick(r, []int{7, 8, 15, 16, 23, 24, 31, 32, 62, 63, 64, 100, 127})
+				f = float32(math.Ldexp(1, k))
+				switch r.Intn(3) {
+				case 0:
+					f = math.Nextafter32(f, 0)
+				case 1:
+					f = math.Nextafter32(f, float32(math.Inf(1)))
+				}
+				break
+			}
 			f = float32(r.Intn(2000)-1000) / 8
 		case 6:
 			if r.P(1, 4) {
